@@ -488,9 +488,13 @@ size_t varintAdaptiveDecode(const uint8_t *src, uint64_t *values,
         varintBitmap *vb = varintBitmapDecode(data, 1024 * 1024);
         if (vb) {
             /* Extract values from bitmap */
+            /* varintBitmapToArray writes every member, so size the scratch
+             * array by the set's cardinality, not by the caller's capacity */
             size_t allocSize;
             uint16_t *shortValues = NULL;
-            if (!size_mul_overflow(maxCount, sizeof(uint16_t), &allocSize)) {
+            size_t members = varintBitmapCardinality(vb);
+            if (members > 0 &&
+                !size_mul_overflow(members, sizeof(uint16_t), &allocSize)) {
                 shortValues = malloc(allocSize);
             }
 
